@@ -259,6 +259,9 @@ def check(ctx):
     to_tree = model.method("Config", "to_tree")
     copied = False
     for x in ast.walk(to_tree.node):
+        if isinstance(x, (ast.Assign, ast.AnnAssign)) and isinstance(x.value, (ast.Dict, ast.DictComp)) and any(
+                isinstance(y, ast.Attribute) and y.attr == "_fields" for y in ast.walk(x.value)):
+            copied = True   # {**schema_fields, **own_fields}: a new mapping
         if isinstance(x, (ast.Assign, ast.AnnAssign)) and isinstance(x.value, ast.Call) and any(
                 isinstance(y, ast.Attribute) and y.attr == "_fields" for y in ast.walk(x.value)):
             nodes = an.cfg(to_tree).nodes_for(x.value)
